@@ -241,7 +241,7 @@ def gen_op(rng, P):
         return op, reg
     if r < 0.52:
         # caps relative to what is pending in each token, incl. exactly 0 ("collect only the other token") and a cap lying between the two
-        c0, c1, ccls = U.collect_caps(rng, m.positions[k])
+        c0, c1, ccls = U.collect_caps(rng, m.positions[k], exact=False)
         return {"op": "collect", "lower": k.lower_tick, "upper": k.upper_tick, "max0": c0, "max1": c1, "remove_dry": True, "to_user": True}, reg + ":" + ccls
     if r < 0.6:
         return {"op": "sell", "amount": bb * Decimal("0.1"), "price": None}, "-"
